@@ -199,6 +199,32 @@ PathsAgree ==
   /\ \A c \in Chans : LET st == ChanStream(sh, c) IN StreamOK(st, 1, 0) /\ SumCounts(st, Len(st)) = LenOf(sh, c)
   /\ FileStreamOK(FileStream(sh), 1, 0, 0)
 
+(* ------------------------- access paths (C03) --------------------------- *)
+\* Every way of obtaining a channel's data, with the mode in which it is available and whether it applies scaling.
+\* All of them denote the same abstract result: the channel's token sequence 0..L-1 (chunk streams: in pieces
+\* whose offsets are the running count).
+AccessPaths ==
+  { [path |-> "slice_all",   modes |-> {"eager", "lazy"}, scaled |-> TRUE,  stream |-> "none"],
+    [path |-> "ellipsis",    modes |-> {"eager", "lazy"}, scaled |-> TRUE,  stream |-> "none"],
+    [path |-> "read_data",   modes |-> {"eager", "lazy"}, scaled |-> TRUE,  stream |-> "none"],
+    [path |-> "data",        modes |-> {"eager"},         scaled |-> TRUE,  stream |-> "none"],
+    [path |-> "iterate",     modes |-> {"eager", "lazy"}, scaled |-> TRUE,  stream |-> "none"],
+    [path |-> "int_index",   modes |-> {"eager", "lazy"}, scaled |-> TRUE,  stream |-> "none"],
+    [path |-> "chan_chunks", modes |-> {"lazy"},          scaled |-> TRUE,  stream |-> "chan"],
+    [path |-> "file_chunks", modes |-> {"lazy"},          scaled |-> TRUE,  stream |-> "file"],
+    [path |-> "read_data_unscaled", modes |-> {"eager", "lazy"}, scaled |-> FALSE, stream |-> "none"],
+    [path |-> "raw_data",    modes |-> {"eager"},         scaled |-> FALSE, stream |-> "none"] }
+Configs == [memmap : BOOLEAN, rawts : BOOLEAN, source : {"path", "stream"}]
+
+\* behaviour used by the C03 GEN configuration: choose a shape, nothing else happens
+AccInit == Init
+AccNext == UNCHANGED vars
+AccSpec == AccInit /\ [][AccNext]_vars
+GenAccess == GenPrint =>
+  PrintT(<<"GEN", ToJson([shape |-> sh, lenx |-> LenOf(sh, "x"), leny |-> LenOf(sh, "y"),
+                          chanx |-> ChanStream(sh, "x"), chany |-> ChanStream(sh, "y"), file |-> FileStream(sh),
+                          paths |-> AccessPaths, configs |-> Configs])>>)
+
 \* GEN: a behaviour is printed when its history is complete
 GenCase == (GenPrint /\ MaxHist > 0 /\ Len(hist) = MaxHist) =>
   PrintT(<<"GEN", ToJson([shape |-> sh, lenx |-> LenOf(sh, "x"), leny |-> LenOf(sh, "y"), hist |-> hist])>>)
